@@ -20,7 +20,7 @@ BUILD = os.path.join(ROOT, ".build")
 REPO = os.environ.get("VERIF_REPO", "/repo")
 CARGO_TARGET = os.path.join(BUILD, "cargo")
 OCAML_DIR = os.path.join(BUILD, "ocaml")
-EVID = os.path.join(ROOT, "evidence")
+EVID = os.environ.get("VERIF_EVID", os.path.join(ROOT, "evidence"))
 REPLAY = os.path.join(EVID, "replay")
 GUARD = "tiny_skia_verif"
 NCPU = 16
@@ -432,6 +432,9 @@ def check(pid, tier):
             for i, what in mod.post_oracle(cases, impl_out):
                 s_, a_ = cases[i]
                 kid = match_known(mod, known, s_, a_, impl_out[i], what)
+                # a listed finding only covers behaviour the (faithful) model reproduces
+                if kid and model_out is not None and not agree(mod, s_, a_, model_out[i], impl_out[i]):
+                    kid = None
                 if kid:
                     ctx.known_hits[kid] = ctx.known_hits.get(kid, 0) + 1
                 else:
@@ -444,6 +447,8 @@ def check(pid, tier):
             v = mod.oracle(s, a, io)
             if v:
                 kid = match_known(mod, known, s, a, io, v)
+                if kid and model_out is not None and not agree(mod, s, a, model_out[i], io):
+                    kid = None
                 if kid:
                     ctx.known_hits[kid] = ctx.known_hits.get(kid, 0) + 1
                 else:
@@ -454,11 +459,7 @@ def check(pid, tier):
                 rel = getattr(mod, "relation", None)
                 same = rel(s, a, mo, io) if rel else (mo == io)
                 if not same:
-                    kid = match_known(mod, known, s, a, io, "model/impl disagree")
-                    if kid:
-                        ctx.known_hits[kid] = ctx.known_hits.get(kid, 0) + 1
-                    else:
-                        mismatch.setdefault(s, []).append((i, prof))
+                    mismatch.setdefault(s, []).append((i, prof))
             if prof == profiles[0]:
                 t = mod.nontrivial_tag(s, a, io)
                 if t:
@@ -550,6 +551,11 @@ def check(pid, tier):
     log("check %s tier=%s: obligations %d/%d, evaluations %d, violations %d, %.1fs" % (
         pid, tier, ndis, nob, ctx.evaluations, len(ctx.violations), time.time() - t0))
     return rc
+
+
+def agree(mod, s, a, mo, io):
+    rel = getattr(mod, "relation", None)
+    return rel(s, a, mo, io) if rel else (mo == io)
 
 
 def match_known(mod, known, s, a, io, what):
